@@ -98,6 +98,13 @@ class C03(Check):
                 case['expected'] = xrng.choice(outside)
             else:
                 case['expected'] = xrng.choice(F.FORMATS)
+        arng = st('argshapes')
+        if via != 'detect' and arng.random() < 0.2:
+            # how the caller spells the configuration: str subclasses for
+            # names, other collection types for the selection
+            case['styles'] = [arng.choice(imgsim.NAME_STYLES),
+                              arng.choice(imgsim.COLL_STYLES),
+                              arng.choice(imgsim.NAME_STYLES)]
         if via == 'wfile':
             case['ask'] = core.weighted(xrng, imgsim.ASK_MODES)
         if via == 'witer' and xrng.random() < 0.3:
@@ -227,8 +234,11 @@ class C03(Check):
                     else sizes
                 src = SimSource(data, plan)
                 try:
-                    w = m.InspectWrapper(src, allowed_formats=allowed,
-                                         expected_format=expected)
+                    sty = case.get('styles') or [None, None, None]
+                    w = m.InspectWrapper(
+                        src, allowed_formats=imgsim.coll_arg(
+                            allowed, sty[1], sty[2]),
+                        expected_format=imgsim.name_arg(expected, sty[0]))
                     imgsim.order_inspectors(w, case.get('order') or
                                             list(F.FORMATS))
                     idx = 0
